@@ -100,6 +100,13 @@ def _kill_pool(pool):
     if pool is None:
         return
     try:
+        # stop the pool's maintenance thread from re-populating the pool with fresh workers while we kill them
+        import multiprocessing.pool as _mpp
+        try:
+            pool._worker_handler._state = _mpp.TERMINATE
+            pool._state = _mpp.TERMINATE
+        except Exception:
+            pass
         for p in list(getattr(pool, '_pool', [])):
             try:
                 p.kill()
